@@ -207,11 +207,19 @@ def setitem(src, tree, cls, prefix, bounds_first):
         all_comps = False
         rest = rest[3:]
     st = rest[0] if len(rest) == 1 else None
-    if not (st is not None and isinstance(st, ast.Assign) and isinstance(st.targets[0], ast.Subscript)
+    attr_dtype = None
+    if (st is not None and isinstance(st, ast.Assign) and isinstance(st.targets[0], ast.Subscript)
             and T.dotted(st.targets[0].value) == "self._data" and T.dotted(st.targets[0].slice) == key
-            and isinstance(st.value, ast.Call) and T.dotted(st.value.func) == "Vec"
-            and [T.dotted(a) for a in st.value.args] == [data]):
-        T.fail(ATTR, fn, "vector branch does not end with self._data[key] = Vec(data)")
+            and isinstance(st.value, ast.Call) and T.dotted(st.value.func) == "Vec" and len(st.value.args) == 1):
+        arg = st.value.args[0]
+        if T.dotted(arg) == data:
+            attr_dtype = False          # np.asarray(list): numpy infers the dtype
+        elif (isinstance(arg, ast.Call) and T.dotted(arg.func) in ("np.array", "np.asarray") and len(arg.args) == 1
+              and T.dotted(arg.args[0]) == data and len(arg.keywords) == 1 and arg.keywords[0].arg == "dtype"
+              and T.dotted(arg.keywords[0].value) == "self.type.dtype"):
+            attr_dtype = True
+    if attr_dtype is None:
+        T.fail(ATTR, fn, "vector branch does not end with self._data[key] = Vec(data) / Vec(np.array(data, dtype=self.type.dtype))")
 
     # ---- scalar branch
     sb = list(top.orelse)
@@ -226,6 +234,7 @@ def setitem(src, tree, cls, prefix, bounds_first):
     text += "Definition %s_checks_all_components : bool := %s.\n" % (prefix, "true" if all_comps else "false")
     text += "Definition %s_vec_cast_ok (tv ta : ty) : bool := %s.\n" % (prefix, vec_cast)
     text += "Definition %s_scal_cast_ok (tv ta : ty) : bool := %s.\n" % (prefix, sc_cast)
+    text += "Definition %s_vec_uses_attr_dtype : bool := %s.\n" % (prefix, "true" if attr_dtype else "false")
     return text, (cls + ".__setitem__", T.sha(src, fn))
 
 
@@ -362,6 +371,23 @@ def dense_misc(src, tree):
     return out, parts
 
 
+def string_width(src, tree):
+    fn = T.find_def(tree, "_BaseAttribute.Type.dtype", ATTR)
+    body = T.body_nodoc(fn)
+    ok = (len(body) == 2 and isinstance(body[0], ast.If) and isinstance(body[0].test, ast.Compare)
+          and isinstance(body[0].test.ops[0], ast.Eq) and T.dotted(body[0].test.left) == "self"
+          and len(body[0].body) == 1 and isinstance(body[0].body[0], ast.Return)
+          and isinstance(body[0].body[0].value, ast.Constant) and isinstance(body[0].body[0].value.value, str)
+          and isinstance(body[1], ast.Return) and T.dotted(body[1].value) == "self.value")
+    if not ok or typename(ATTR, body[0].test.comparators[0]) != "TString":
+        T.fail(ATTR, fn, "Type.dtype is not `if self == Type.String: return '<U..'; return self.value`")
+    import re
+    m = re.fullmatch(r"<U(\d+)", body[0].body[0].value.value)
+    if not m:
+        T.fail(ATTR, fn, "string dtype is not a fixed-width unicode dtype")
+    return "Definition string_width : Z := %s.\n" % m.group(1), ("Type.dtype", T.sha(src, fn))
+
+
 def type_defaults(src, tree):
     fn = T.find_def(tree, "_BaseAttribute.Type.default_value", ATTR)
     body = T.body_nodoc(fn)
@@ -402,7 +428,7 @@ def type_defaults(src, tree):
         elif isinstance(c, str):
             if c != "":
                 T.fail(ATTR, v, "string default other than the empty string")
-            table[t] = "CS 0"
+            table[t] = "CS []"
         else:
             T.fail(ATTR, v, "default of unknown kind")
     if sorted(table) != sorted(TYN.values()):
@@ -490,14 +516,31 @@ def container(src, tree, cls, prefix, data_fields, pair_items):
     env = {"len(%s)" % other: "len_other"}
     out += "Definition %s_iadd_list_amount (len_other : Z) : Z := %s.\n" % (prefix, expand_loop(CONT, lb, env, fn))
     pre = lb[:-1]
+    atomic = True
     if pair_items:
-        ok = (len(pre) == 1 and isinstance(pre[0], ast.For) and T.dotted(pre[0].iter) == other and len(pre[0].body) == len(data_fields))
+        def pair_loop(st, it):
+            return (isinstance(st, ast.For) and T.dotted(st.iter) == it and isinstance(st.target, ast.Tuple)
+                    and len(st.target.elts) == 2 and len(st.body) == len(data_fields)
+                    and all(isinstance(b, ast.Expr) and isinstance(b.value, ast.Call)
+                            and T.dotted(b.value.func) in [f + ".append" for f in data_fields] for b in st.body))
+        if len(pre) == 1 and pair_loop(pre[0], other):
+            ok, atomic = True, False       # items are unpacked while the data is being extended
+        elif (len(pre) == 2 and isinstance(pre[0], ast.Assign) and isinstance(pre[0].targets[0], ast.Name)
+              and isinstance(pre[0].value, ast.ListComp) and len(pre[0].value.generators) == 1
+              and T.dotted(pre[0].value.generators[0].iter) == other
+              and isinstance(pre[0].value.generators[0].target, ast.Tuple)
+              and len(pre[0].value.generators[0].target.elts) == 2 and not pre[0].value.generators[0].ifs
+              and pair_loop(pre[1], pre[0].targets[0].id)):
+            ok = True                      # every item unpacked before anything is extended
+        else:
+            ok = False
     else:
         ok = (len(pre) == 1 and isinstance(pre[0], ast.AugAssign) and isinstance(pre[0].op, ast.Add)
               and T.dotted(pre[0].target) == data_fields[0] and isinstance(pre[0].value, ast.Call)
               and T.dotted(pre[0].value.func) == "list" and T.dotted(pre[0].value.args[0]) == other)
     if not ok:
         T.fail(CONT, fn, "list branch does not extend the data by the items of other exactly once")
+    out += "Definition %s_iadd_list_atomic : bool := %s.\n" % (prefix, "true" if atomic else "false")
     # container branch
     if not (len(top.orelse) == 1 and isinstance(top.orelse[0], ast.If)):
         T.fail(CONT, fn, "no elif isinstance(other, <container>) branch")
@@ -583,7 +626,40 @@ def create_attribute(src, tree, conf_tree):
     elif isinstance(ne, ast.IfExp) and isinstance(ne.test, ast.Compare) and isinstance(ne.test.ops[0], ast.IsNot) \
             and T.dotted(ne.test.left) == "size":
         ne = ne.orelse
+    ne_sized = bd.get("n_elem")
+    if isinstance(ne_sized, ast.IfExp) and isinstance(ne_sized.test, ast.Compare) and T.dotted(ne_sized.test.left) == "size":
+        ne_sized = ne_sized.orelse if isinstance(ne_sized.test.ops[0], ast.Is) else ne_sized.body
     text = "Definition create_dense_n_elem (len_self : Z) : Z := %s.\n" % zexp(CONT, ne, {"len(self)": "len_self"})
+    text += "Definition create_dense_n_elem_sized (len_self size : Z) : Z := %s.\n" % zexp(CONT, ne_sized, {"len(self)": "len_self", "size": "size"})
+    # register_array_as_attribute
+    fr = T.find_def(tree, "_BaseDataContainer.register_array_as_attribute", CONT)
+    rb = T.body_nodoc(fr)
+    ok = (len(rb) == 1 and isinstance(rb[0], ast.If) and isinstance(rb[0].test, ast.BoolOp) and isinstance(rb[0].test.op, ast.And)
+          and len(rb[0].test.values) == 2 and isinstance(rb[0].test.values[0], ast.Compare)
+          and isinstance(rb[0].test.values[0].ops[0], ast.In) and T.dotted(rb[0].test.values[0].comparators[0]) == "self._attr")
+    keeps = None
+    if ok:
+        v = rb[0].test.values[1]
+        if T.dotted(v) == "config.display_duplicate_attribute_warning":
+            keeps = flag
+        elif isinstance(v, ast.UnaryOp) and isinstance(v.op, ast.Not) and T.dotted(v.operand) == "config.display_duplicate_attribute_warning":
+            keeps = not flag
+    if keeps is None:
+        T.fail(CONT, fr, "register_array_as_attribute does not start with the duplicate-name test")
+    el = rb[0].orelse
+    # else: reshape 1-d; try: n_elem, elem_size = shape; assert n_elem == len(self); ArrayAttribute(type(data[0,0].item()), n_elem, elem_size=.., default_value=..); ._data = data; return
+    asserts = [n for n in ast.walk(ast.Module(body=el, type_ignores=[])) if isinstance(n, ast.Assert)]
+    ok = (len(asserts) == 1 and isinstance(asserts[0].test, ast.Compare) and isinstance(asserts[0].test.ops[0], ast.Eq)
+          and {T.dotted(asserts[0].test.left), "len(self)" if (isinstance(asserts[0].test.comparators[0], ast.Call)
+               and T.dotted(asserts[0].test.comparators[0].func) == "len") else T.dotted(asserts[0].test.comparators[0])}
+          == {"n_elem", "len(self)"})
+    calls = [n for n in ast.walk(ast.Module(body=el, type_ignores=[])) if isinstance(n, ast.Call) and T.dotted(n.func) == "ArrayAttribute"]
+    ok = ok and len(calls) == 1 and len(calls[0].args) >= 2 and T.dotted(calls[0].args[1]) == "n_elem"
+    shares = [n for n in el if isinstance(n, ast.Assign) and isinstance(n.targets[0], ast.Attribute)
+              and n.targets[0].attr == "_data" and T.dotted(n.value) == "data"]
+    if not ok or len(shares) != 1:
+        T.fail(CONT, fr, "register_array_as_attribute is not `assert n_elem == len(self); ArrayAttribute(type, n_elem, ..); ._data = data`")
+    text += "Definition register_keeps_existing : bool := %s.\n" % ("true" if keeps else "false")
     text += "Definition create_keeps_existing : bool := %s.\n" % ("true" if flag else "false")
     return text, ("create_attribute", T.sha(src, fn))
 
@@ -613,6 +689,9 @@ def gen():
     t, ps = type_defaults(src, tree)
     body += t
     parts += ps
+    t, p = string_width(src, tree)
+    body += t
+    parts.append(p)
     t, p = create_attribute(csrc, ctree, conf)
     body += t
     parts.append(p)
